@@ -8,10 +8,10 @@ from decaylib import F, is_finite
 from oracle import DatasetView, frac_str, parse_frac
 
 NEEDS_DATASET = True
-TARGETS = ["RdVerif.Props.C06", "RdVerif.Props.C04"]
+TARGETS = ["RdVerif.Props.C06", "RdVerif.Props.C04", "RdVerif.Props.C06Float"]
 THEOREMS = ["RdVerif.C06.time_table_eq_spec", "RdVerif.C06.year_units_eq_spec", "RdVerif.C06.unknown_unit_refused",
             "RdVerif.C06.timeConv_ok", "RdVerif.C06.to_seconds", "RdVerif.C06.conv_compose", "RdVerif.C06.halving_exact",
-            "RdVerif.C04.rates_from_half_lives", "RdVerif.C04.year_close"]
+            "RdVerif.C04.rates_from_half_lives", "RdVerif.C04.year_close", "RdVerif.C06.float_conversion_within"]
 PARTIAL = {
     "halving_float_partial": "that the double-precision result of decaying for the reported half-life is 1/2 to a few ulp is "
                              "checked for every radionuclide x time unit, not proved",
